@@ -284,23 +284,11 @@ Proof. intro Hk. rewrite memory_rut_hd by exact Hk. rewrite sql_rut_hd. reflexiv
 
 (* ---- ReadUsersetTuples ------------------------------------------------------------------- *)
 
-Lemma m_inner_none rs t :
-  m_restr_count rs t = 0%nat ->
-  m_usersets_inner rs t = [] /\ existsb (fun r => m_restr_match r t) rs = false.
-Proof.
-  unfold m_restr_count. induction rs as [|r rs IH]; simpl; intro H; [auto|].
-  destruct (m_restr_match r t); simpl in *; [discriminate|]. auto.
-Qed.
-
-Lemma m_inner_le1 rs t :
-  Nat.ltb 1 (m_restr_count rs t) = false ->
+Lemma m_inner_first rs t :
   m_usersets_inner rs t = if existsb (fun r => m_restr_match r t) rs then [t] else [].
 Proof.
-  unfold m_restr_count. induction rs as [|r rs IH]; simpl; intro H; [reflexivity|].
-  destruct (m_restr_match r t) eqn:E; simpl in *.
-  - apply Nat.ltb_ge in H. assert (H0 : m_restr_count rs t = 0%nat) by (unfold m_restr_count; lia).
-    destruct (m_inner_none _ _ H0) as [-> _]. reflexivity.
-  - apply IH. exact H.
+  induction rs as [|r rs IH]; simpl; [reflexivity|].
+  destruct (m_restr_match r t); simpl; [reflexivity|exact IH].
 Qed.
 
 Lemma m_restr_match_spec r t :
@@ -324,31 +312,26 @@ Proof.
   apply andb_true_iff in H as [H1 H2]. rewrite (m_restr_match_spec _ _ Hus H1), IH by exact H2. reflexivity.
 Qed.
 
-Lemma memory_read_userset_tuples_eq_spec_partial s f :
+Lemma memory_read_userset_tuples_eq_spec s f :
   no_bare (uf_restr f) = true ->
-  flag_usersets_conditions_ignored s f = false ->
-  flag_usersets_duplicate_restrictions s f = false ->
   memory_read_userset_tuples s f = read_userset_tuples_spec s f.
 Proof.
-  intros Hnb Hc Hd. unfold memory_read_userset_tuples, read_userset_tuples_spec. f_equal.
-  unfold flag_usersets_conditions_ignored in Hc. apply negb_false_iff in Hc.
-  unfold flag_usersets_duplicate_restrictions in Hd.
+  intros Hnb. unfold memory_read_userset_tuples, read_userset_tuples_spec. f_equal.
   induction s as [|t s IH]; simpl; [reflexivity|].
-  simpl in Hc, Hd. apply andb_true_iff in Hc as [Hc1 Hc2]. apply orb_false_iff in Hd as [Hd1 Hd2].
-  specialize (IH Hc2 Hd2).
   assert (Hm : m_match t (uf_obj f) (uf_rel f) UAny = obj_ok (uf_obj f) t && rel_ok (uf_rel f) t).
   { rewrite m_match_spec by reflexivity. simpl. apply andb_true_r. }
-  rewrite Hm. unfold usersets_pred at 1. rewrite Hc1, andb_true_r.
+  rewrite Hm. unfold usersets_pred at 1.
   destruct (is_userset_user (t_user t)) eqn:Hus; simpl; [|rewrite andb_false_r; exact IH].
   rewrite andb_true_r.
   destruct (obj_ok (uf_obj f) t && rel_ok (uf_rel f) t); simpl; [|exact IH].
+  assert (Hc : negb (null (uf_conds f)) && negb (m_contains (uf_conds f) (t_cond t)) =
+               negb (conds_ok (uf_conds f) t)).
+  { unfold conds_ok, m_contains, bmem. rewrite negb_orb. reflexivity. }
+  rewrite Hc. destruct (conds_ok (uf_conds f) t); simpl; [|rewrite andb_false_r; exact IH].
+  rewrite andb_true_r.
   destruct (null (uf_restr f)) eqn:En; simpl; [rewrite IH; reflexivity|].
-  assert (Hbody : m_usersets_inner (uf_restr f) t ++ m_usersets_loop s f =
-                  if existsb (fun r => restr_ok r t) (uf_restr f) then t :: filter (usersets_pred f) s
-                  else filter (usersets_pred f) s).
-  { rewrite (m_inner_le1 _ _ Hd1), (existsb_restr_spec _ _ Hus Hnb), IH.
-    destruct (existsb (fun r => restr_ok r t) (uf_restr f)); reflexivity. }
-  destruct (negb (null (uf_conds f)) && negb (m_contains (uf_conds f) (t_cond t))); exact Hbody.
+  rewrite m_inner_first, (existsb_restr_spec _ _ Hus Hnb), IH.
+  destruct (existsb (fun r => restr_ok r t) (uf_restr f)); reflexivity.
 Qed.
 
 Lemma sq_restr_terms_spec rs t :
@@ -376,34 +359,25 @@ Qed.
 
 Lemma memory_eq_sql_read_userset_tuples s f :
   wf_store s = true -> wf_usersets_filter f = true ->
-  flag_usersets_conditions_ignored s f = false ->
-  flag_usersets_duplicate_restrictions s f = false ->
   Permutation (memory_read_userset_tuples s f) (sql_read_userset_tuples s f).
 Proof.
-  intros Hs Hf Hc Hd. unfold wf_usersets_filter in Hf.
+  intros Hs Hf. unfold wf_usersets_filter in Hf.
   apply andb_true_iff in Hf as [Ho Hnb].
-  rewrite memory_read_userset_tuples_eq_spec_partial, sql_read_userset_tuples_eq_spec by assumption.
+  rewrite memory_read_userset_tuples_eq_spec, sql_read_userset_tuples_eq_spec by assumption.
   apply Permutation_refl.
 Qed.
 
-Lemma memory_read_userset_tuples_eq_spec_refuted_conditions :
-  exists s f, wf_store s = true /\ keys_unique s = true /\ wf_usersets_filter f = true /\
-              flag_usersets_duplicate_restrictions s f = false /\
-              ~ Permutation (memory_read_userset_tuples s f) (read_userset_tuples_spec s f).
-Proof.
-  exists w_store, (mkUF (OFull b_doc b_2) b_viewer [] [[]]). repeat split; try reflexivity.
-  apply not_perm_by_length. vm_compute. discriminate.
-Qed.
+(* historical (before d969704 the memory loop never applied Conditions and appended a row once per
+   matching restriction): the old witnesses, on which the memory model returned w_t2 although its
+   condition is not listed, resp. returned it twice *)
+Example memory_usersets_conditions_regression :
+  memory_read_userset_tuples w_store (mkUF (OFull b_doc b_2) b_viewer [] [[]]) = [w_t4].
+Proof. vm_compute. reflexivity. Qed.
 
-Lemma memory_read_userset_tuples_eq_spec_refuted_duplicates :
-  exists s f, wf_store s = true /\ keys_unique s = true /\ wf_usersets_filter f = true /\
-              flag_usersets_conditions_ignored s f = false /\
-              ~ Permutation (memory_read_userset_tuples s f) (read_userset_tuples_spec s f).
-Proof.
-  exists w_store, (mkUF (OFull b_doc b_2) b_viewer [RRel b_group b_member; RRel b_group b_member] []).
-  repeat split; try reflexivity.
-  apply not_perm_by_length. vm_compute. discriminate.
-Qed.
+Example memory_usersets_duplicate_restrictions_regression :
+  memory_read_userset_tuples w_store
+    (mkUF (OFull b_doc b_2) b_viewer [RRel b_group b_member; RRel b_group b_member] []) = [w_t2].
+Proof. vm_compute. reflexivity. Qed.
 
 (* ---- ReadStartingWithUser ---------------------------------------------------------------- *)
 
@@ -518,15 +492,12 @@ Proof.
   apply memory_rswu_eq_spec_partial. exact Hd.
 Qed.
 
-(* memory and sqlite disagree with each other on the witnesses above (F6 a-d as listed) *)
+(* memory and sqlite still disagree with each other on the open findings *)
 Lemma memory_eq_sql_refuted :
-  (exists s f, ~ Permutation (memory_read_userset_tuples s f) (sql_read_userset_tuples s f)) /\
   (exists s f, ~ Permutation (memory_rswu s f) (sql_rswu s f)) /\
   (exists s f, ~ Permutation (memory_read s f) (sql_read s f)).
 Proof.
-  split; [|split].
-  - exists w_store, (mkUF (OFull b_doc b_2) b_viewer [] [[]]).
-    apply not_perm_by_length. vm_compute. discriminate.
+  split.
   - exists w_store, (mkSF b_doc b_viewer [mkUser b_user b_a []] (Some []) []).
     apply not_perm_by_length. vm_compute. discriminate.
   - exists w_store, (mkRF OAny [] UAny [[]]).
@@ -540,19 +511,18 @@ Proof. intros t. rewrite m_read_loop_filter. apply filter_sub. Qed.
 
 Lemma m_usersets_inner_sub rs t : forall x, In x (m_usersets_inner rs t) -> x = t.
 Proof.
-  induction rs as [|r rs IH]; simpl; intros x H; [contradiction|].
-  destruct (m_restr_match r t); [destruct H as [<-|H]; auto|auto].
+  intros x. rewrite m_inner_first. destruct (existsb (fun r => m_restr_match r t) rs); simpl; [|tauto].
+  intros [<-|[]]. reflexivity.
 Qed.
 
 Lemma m_usersets_loop_sub s f : forall x, In x (m_usersets_loop s f) -> In x s.
 Proof.
   induction s as [|t s IH]; simpl; intros x H; [contradiction|].
   destruct (m_match t (uf_obj f) (uf_rel f) UAny && is_userset_user (t_user t)); [|right; auto].
+  destruct (negb (null (uf_conds f)) && negb (m_contains (uf_conds f) (t_cond t))); [right; auto|].
   destruct (null (uf_restr f)).
   - destruct H as [<-|H]; [left; reflexivity|right; auto].
-  - assert (H' : In x (m_usersets_inner (uf_restr f) t ++ m_usersets_loop s f))
-      by (destruct (negb (null (uf_conds f)) && negb (m_contains (uf_conds f) (t_cond t))); exact H).
-    apply in_app_or in H' as [H'|H']; [left; symmetry; eapply m_usersets_inner_sub; eauto|right; auto].
+  - apply in_app_or in H as [H|H]; [left; symmetry; eapply m_usersets_inner_sub; eauto|right; auto].
 Qed.
 
 Lemma m_rswu_inner_sub us t : forall x, In x (m_rswu_inner us t) -> x = t.
